@@ -1,5 +1,5 @@
 (* Properties_C15.v — every browser report is backed by valid records and never goes stale (partial). *)
-From QV Require Import Base Fields SrcFacts Msg SrcDecisions Cache Sim Browser BrowserSpec BrowserProofs BrowserInv BrowserBacked.
+From QV Require Import Base Fields SrcFacts Msg SrcDecisions Cache Sim SimProofs Browser BrowserSpec BrowserProofs BrowserInv BrowserBacked BrowserSrv.
 Local Open Scope Z_scope.
 
 (* Handler level (a run-level statement of the first clause follows below).  Every description updateService reports is assembled from the cache content it sees: a PTR
@@ -40,3 +40,28 @@ Theorem C15_reports_backed now w ev ob sg s :
   exists v, incl v (sources w ev) /\ Backed v s.
 Proof. intros H R. exact (world_handle_backed now w ev ob sg s H R). Qed.
 Print Assumptions C15_reports_backed.
+
+(* ---- run level, removal clause ("reported removed no later than the moment its last SRV record expires or is
+   withdrawn") ----
+   [SrvInv w]: for every browser of the world and every instance it currently has added, its cache holds an SRV record
+   for that instance (and the stored description has a name).  It holds in the empty world and is preserved by EVERY
+   handler invocation - messages (record by record), cache timers with any number of records leaving one by one (each
+   removal is shown to every browser attached to that cache, which drops the instance when the record is an SRV of it),
+   goodbyes, flush replacements (the replacing record is itself an SRV of the instance), API calls, any number of
+   browsers and shared caches.  Hence an instance never stays added beyond the handler in which its last SRV record left
+   the cache; under exact scheduling the cache drops a record at its expiry instant (C05). *)
+Theorem C15_added_implies_srv_held now w ev : SrvInv w -> SrvInv (fst (world_handle now w ev)).
+Proof. exact (world_handle_srv now w ev). Qed.
+Print Assumptions C15_added_implies_srv_held.
+
+(* every script of the executable model, from the empty world *)
+Theorem C15_added_implies_srv_held_runs fuel ops b k s :
+  let w := s_st (state_after world bapi world_handle fuel (mkSim 0 [] 0%N (mkWorld [] [] 0)) ops) in
+  In b (w_browsers w) -> smap_find k (b_services b) = Some s -> has_srv k (cache_view w (b_cache b)).
+Proof.
+  intros w Hb Hk.
+  assert (I : SrvInv w).
+  { apply (run_P world bapi world_handle SrvInv (fun now st ev H => world_handle_srv now st ev H)). intros b0 []. }
+  exact (proj1 (I b Hb) k s Hk).
+Qed.
+Print Assumptions C15_added_implies_srv_held_runs.
